@@ -58,7 +58,7 @@ def scenario() -> Any:
         return d
 
     msg = cm.message(kinds=("async", "async", "async", "async", "sync", "bad", "unknown"),
-                     outs=("ret", "ret", "ret", "ValueError", "NoResult"), acks=("sync", "async"))
+                     outs=("ret", "ret", "ret", "ValueError", "NoResult"), acks=("sync", "async", "future"))
     return st.fixed_dictionaries({
         "A": st.integers(1, 4), "P": st.integers(0, 4),
         "family": st.sampled_from(["burst", "burst", "faulty_burst", "free"]),
